@@ -85,7 +85,7 @@ contract(
     'hl7apy.core:Element.add',
     sig={'self': 'Element', 'obj': 'Element'},
     returns='none',
-    interface=True,
+    interface=True, verify=False,
     requires=['sep(self.children)', 'self.children.element is self'],
     ensures=ADD_ENSURES,
     raises=ADD_RAISES,
